@@ -1,17 +1,99 @@
-"""Per-property metadata: bounds, assumptions, clauses outside the claim, time budgets, extra (non-path) checks."""
+"""Per-property metadata: bounds, assumptions, clauses outside the claim, time budgets."""
 
 COMMON_ASSUMPTIONS = [
     "floats are modelled as exact reals (z3 Real); concrete constants enter as the exact rational of the IEEE double; "
     "accumulated rounding of symbolic operations, overflow and NaN/inf other than through the recorded hazards are outside the claim",
-    "exp/log/pow are uninterpreted functions constrained by sound ground axioms and true-value anchors (over-approximation); "
-    "a solver counterexample is reported only after it reproduces on the unpatched function with concrete floats",
+    "exp/log/pow are uninterpreted functions constrained by sound ground axioms and true-value anchors (over-approximation); where a harness "
+    "abstracts symbolic products/quotients (MUL/DIV) the same holds; a solver counterexample is reported only after it reproduces on the "
+    "unpatched function with concrete floats",
     "the pre-state of a leaf harness is arbitrary within the state invariant INV (DESIGN.md section 5), not a state reached by a history",
     "inputs are finite and within the documented ranges (DESIGN.md section 3.5)",
-    "z3 5.1 (python wheel) is trusted; engine shim validated per path against the unpatched functions",
+    "contract stubs used by composition harnesses assume exactly the clauses that the leaf harnesses of the same property set discharge on the real callee",
+    "z3 5.1 (python wheel) is trusted; the engine shim is validated per path against the unpatched functions (traces_validated_against_impl)",
 ]
+
+WATER_BOUNDS = {
+    "quick": "profiles of 2 compartments (4 for soil evaporation; 3 for some groundwater cases) with the hydraulic parameters of SandyLoam, Paddy, Clay/Sand, "
+             "PaddyTop/PaddyPan (Ksat 15 over 2), SandyLoam over a 0.5 mm/day clay, a fast-draining 30 mm/day layer; thickness 0.1-0.2 m; evaporation: first 1 of the "
+             "20 sub-daily steps with the true sub-step demand, evaporation depth from {0.15, 0.237, 0.3} m, layer expansion cut after 2 iterations; "
+             "transpiration: rooting depth from a 2-point grid per profile, degree days from a 3-point grid, cold-stress/ageing regimes enumerated",
+    "thorough": "2 and 3 compartments, all 15 built-in soils plus 4 layered and 2 uneven-thickness profiles; evaporation: first 1 and 2 sub-steps, 5 evaporation depths, "
+                "full (unpartitioned) regime for one configuration; transpiration: 3 rooting depths, 5 degree-day values, 4 crops",
+}
 
 PROPS = {}
 
 
 def prop(pid, **kw):
     PROPS[pid] = kw
+
+
+prop("C01",
+     bounds=WATER_BOUNDS,
+     outside=["profiles with more than 3 (4) compartments; defects that need >= 4 compartments to show",
+              "sub-daily evaporation steps 2..20 are covered by the one-step induction argument of DESIGN.md 3.3, not unrolled",
+              "thermal-time crops in the season-reset harness"],
+     assumptions=["capillary-rise balance asserted with the documented 0.05 mm per metre tolerance",
+                  "composition: the daily balance is proved on the real solution_single_time_step with every process replaced by its contract"],
+     budget_s={"quick": 1500, "thorough": 14400})
+prop("C02", bounds=WATER_BOUNDS,
+     outside=["effective curve numbers above 100 (excluded by the statement)", "curve-number depth z_cn beyond the profile depth (the real code then indexes past the profile)"],
+     assumptions=["with bunds the ponded depth at the start of the day does not exceed the bund height (INV)"],
+     budget_s={"quick": 1200, "thorough": 14400})
+prop("C03", bounds=WATER_BOUNDS, outside=["initial water content construction (C18, not applicable)"], budget_s={"quick": 1500, "thorough": 14400})
+prop("C04", bounds=WATER_BOUNDS,
+     outside=["potential-evaporation section and extraction section of soil_evaporation / transpiration are explored in separate partitions (quick tier); "
+              "the unpartitioned function only for one configuration in the thorough tier"],
+     budget_s={"quick": 1800, "thorough": 14400})
+prop("C05",
+     bounds={"quick": "8 calendar-day crops (canopy: Maize, Cotton; roots: Maize, Wheat, Potato; harvest index: Maize, Wheat, Potato), one day from an arbitrary INV state; "
+                      "root development: time from a 3-point grid, penetrability from {100, 30/15, 2/1} %; harvest index: reference index from {0.5, 1.0} x HI0",
+             "thorough": "17 calendar-day crops, finer grids (7 times, 4 penetrabilities, 5 reference-index values)"},
+     outside=["thermal-time (GDD) crops: the leaf harnesses use the calendar-day branch",
+              "canopy cover <= CCx while recovering from early senescence after the start of the senescence stage (update_CCx_CDC branch): exp-of-exp arithmetic the abstraction cannot bound",
+              "adjusted harvest index cap with an incomplete pollination factor (HIadj = HImult*f_pol*HI0 multiplies two symbolic factors)",
+              "trajectory clauses hold through one-step induction from INV, not by unrolling seasons"],
+     budget_s={"quick": 1500, "thorough": 14400})
+prop("C06", bounds={"all": "composition harness on a 2-compartment profile; 11 (quick) / 16 (thorough) day regimes; leaf harnesses for biomass, irrigation, pre-irrigation, transpiration"},
+     outside=["conversion of the output arrays to DataFrames (outputs_when_model_is_finished, pandas)", "sum over a season of the daily column is proved as the inductive invariant irr_cum' = irr_cum + IrrDay"],
+     budget_s={"quick": 900, "thorough": 7200})
+prop("C07", bounds={"all": "1-3 seasons, symbolic integer dates (start, length, planting and harvest dates, current step), off-season flag and harvest flag enumerated"},
+     outside=["derivation of planting/harvest dates and the initial season counter from the date strings (read_model_parameters, compute_crop_calendar: pandas/str code) is assumed as the well-formedness precondition",
+              "thermal-time maturity (gdd_cum >= Maturity) in the composition harness"],
+     budget_s={"quick": 600, "thorough": 3600})
+prop("C08", bounds={"all": "Maize (and Wheat in thorough), irrigation methods 0,1,2,4 (+3,5), start at field capacity and wilting point, bunds; first season executed concretely, "
+                           "every scalar of the state havocked before the real season reset, first day of season 2 executed by the real model"},
+     outside=["thermal-time crops", "state held in arrays other than th/thini is not havocked (aer_days_comp is reset by the code under test and compared concretely)"],
+     budget_s={"quick": 600, "thorough": 3600})
+prop("C09", bounds={"quick": "<= 3 successive run_model calls, each num_steps <= 3 (symbolic), termination after T <= 5 transitions (symbolic), optional clock jump",
+                    "thorough": "<= 3 calls, num_steps <= 5, T <= 8"},
+     outside=["equality of the pandas tables is implied through equality of the arguments reaching the output conversion", "process_outputs=True"],
+     budget_s={"quick": 300, "thorough": 3600})
+prop("C12", bounds=WATER_BOUNDS, cfg_limit={"quick": 5},
+     outside=["profiles deepened for deep-rooted crops (pandas code)", "weather matrix for thermal-time crops (reset_initial_conditions masks a copy; not encoded)"],
+     budget_s={"quick": 1500, "thorough": 14400})
+prop("C13", bounds={"all": "real irrigation() with every parameter symbolic (SMT x4, AppEff, MaxIrr, MaxIrrSeason, interval 1..60, schedule, depth), methods 0-5, growth stages enumerated"},
+     outside=["re-indexing of a dated schedule onto the simulation dates (read_irrigation_management, pandas reindex)"],
+     budget_s={"quick": 600, "thorough": 3600})
+prop("C14", bounds={"quick": "Maize (Champion) and Wheat (Tunis), methods 0/1, cut days {1,2,9,70}; records outside the window for Maize and WheatGDD; one end-date extension",
+                    "thorough": "methods 0,1,2,4, 8 cut days, 4 crops"},
+     outside=["reference ET records below 0.01 mm/day"], budget_s={"quick": 600, "thorough": 3600})
+prop("C15", bounds={"quick": "11 of the 120 column orders + extra columns (first/middle/last/with gaps), offset, shuffled, date and 5-based indexes, leading/trailing rows; 4 probed days",
+                    "thorough": "all 120 column orders"},
+     outside=["thermal-time crops (their calendar is computed by pandas code from named columns)"], budget_s={"quick": 300, "thorough": 1800})
+prop("C16", bounds=WATER_BOUNDS, cfg_limit={"quick": 5},
+     outside=["initialisation-time behaviour: date parsing, leap-day planting dates, windows without seasons, catalogue-wide construction of Soil/Crop (pandas/str code)",
+              "the claim is: no step of a run can raise from a state within INV for the enumerated switch values (ETadj 0/1, zero-height bunds, methods 0-5, water table, ...)"],
+     budget_s={"quick": 1800, "thorough": 14400})
+prop("C17", bounds={"quick": "8 crops, continuous argument ranges (depletion -20..120 % of TAW=100, ET0 0.1..20, temperatures -30..60, time 0..400 d / 4000 GDD, CO2 250..2500)",
+                    "thorough": "all 37 crops"},
+     outside=["CO2 factor monotonicity when both concentrations lie strictly between the reference (369.41) and 550 ppm: z3 and cvc5 return unknown on the mixed rational/exponential branch",
+              "aeration stress coefficient"], budget_s={"quick": 900, "thorough": 7200})
+prop("C19", bounds={"quick": "2-3 compartment profiles of 3 soils/layerings, water table depth symbolic in (0, 40] m",
+                    "thorough": "7 profiles"},
+     outside=["daily table depth follows the configured observations (read_groundwater_table, pandas interpolation)",
+              "far table == no table is proved as: adjusted field capacity = field capacity, CR = 0, GwIn = 0 and th untouched once the table is >= Xmax below every compartment / >= 4 m below the bottom"],
+     budget_s={"quick": 900, "thorough": 7200})
+prop("C20", bounds=WATER_BOUNDS,
+     outside=["explicit default harvest date (read_model_parameters / compute_crop_calendar: str + pandas code)", "empty schedule DataFrame (read_irrigation_management)"],
+     budget_s={"quick": 1200, "thorough": 7200})
